@@ -80,6 +80,24 @@ func (t *MutationHookTimer) _update(ctx context.Context) error {
 	return err
 }
 
+// refresh is for changes that can only move the cached task later.
+// If it is still the next task only the cache is renewed:
+// the timer, armed for the earlier time, stays correct (it merely fires early).
+// If another task took its place the timer is re-armed for that task,
+// since the consumer of an already delivered fire is going to dispatch a task
+// which is no longer the cached one.
+func (t *MutationHookTimer) refresh(ctx context.Context) {
+	if !t.isTimerStarted {
+		return
+	}
+	next, err := t.repo.GetNext(ctx)
+	if err != nil || next.Id != t.cachedMin.Id {
+		t.update(ctx)
+		return
+	}
+	t.cachedMin = next
+}
+
 // 30 years after
 var farFuture = time.Now().Add(30 * 365 * 24 * time.Hour)
 
@@ -113,19 +131,23 @@ func (t *MutationHookTimer) UpdateById(ctx context.Context, id string, param def
 			t.update(ctx)
 			return
 		}
+		// The cached task is moved later or lowered: another task may be the next one now.
+		t.refresh(ctx)
+		return
 	}
 
-	// 1) id is updated to be before
+	// 1) id is updated to be before, or to the same time (it may win on priority or age).
 	updatedToBefore := param.ScheduledAt.IsSome() &&
-		param.ScheduledAt.Value().Before(t.cachedMin.ScheduledAt)
+		!param.ScheduledAt.Value().After(t.cachedMin.ScheduledAt)
 	if updatedToBefore {
 		t.update(ctx)
 		return
 	}
 	// 2) id is scheduled at the same time as cachedMin is, and priority is updated.
+	// Equal priority counts: the updated task may be the older one.
 	updatedToHigherPriority := param.Priority.IsSome() &&
 		(param.ScheduledAt.IsNone()) &&
-		param.Priority.Value() > t.cachedMin.Priority
+		param.Priority.Value() >= t.cachedMin.Priority
 	if updatedToHigherPriority {
 		t.update(ctx)
 		return
